@@ -20,11 +20,34 @@
         <old> gets <new>.  kind ∈ guid (hex) | name (cp.cp…|-) | ver (<build>:<cp.cp…|->) | depex (op[:guid],…|-)
         Answer: "… ds=<…> mem=<fnv>:<len> | <errclass>" where mem = two Assemble passes over the parsed
         tree with the same edit applied in memory.
+    nvlisting <store>
+        (follow-up wp-c07b) the NVAR store `store` — the body of the only file (RAW, NVAR GUID, index 0) of
+        the only volume (offset 0) of a bare BIOS region, erase polarity 1 — parsed by C10's model and
+        extracted by Uefi/ExtractNvar.lean.  Answer "err" (store not parsed) or "ok <n>:<fnv of listing>",
+        listing as above over the raw path bytes.
+    hyp <image>   |   hypedit <kind> <old> <new> <image>
+        (follow-up wp-c07b) do the hypotheses of the round-trip theorems of Props/C07.lean hold of the parsed
+        (resp. parsed and edited) tree?  "ok" when okTree, pwTree, TopPol and the side condition savedOkAll of the
+        fixed-point theorem all evaluate to true, else "no:" followed by the names of those that do not;
+        "parse:<errclass>" when the image does not parse.
+    nvdirsave <store>
+        (follow-up wp-c07b) the store parsed by C10's model, extracted, loaded by ParseDir and assembled again,
+        nested stores included (`asmDirStore`): "err" (not parsed, or the reassembly fails — e.g. a name that is not
+        valid UTF-8, F-C07-1) or "ok <fnv>:<len>" of the store's bytes.
+    nvimage <image>
+        (follow-up wp-c07b) uefi.Parse with C10's `NewNVarStore` model as the NVAR parser (erase polarity 1),
+        then `extract`: "parse:<errclass>" | "ok ex=panic" | "ok <n>:<fnv of listing>", the listing of ALL files
+        written (volume headers, leaf files, the NVar arm's files) digested over the raw path bytes.
   <errclass> ∈ err | panic | fatal | hang | fuel.   Anything else → "bad-op".
 -/
 import Driver.Common
 import FianoModel.Uefi.Dump
 import FianoModel.Uefi.Extract
+import FianoModel.Uefi.ExtractNvar
+import FianoModel.Uefi.FaithfulNvarHook
+import FianoModel.Uefi.ExtractTwiceDefs
+import FianoModel.Uefi.ExtractAsm
+import FianoModel.Uefi.ExtractPathsBase
 
 open Fiano Fiano.Uefi Driver
 
@@ -115,6 +138,49 @@ def mkEdit (kind old new : String) : Option Edit :=
     | _, _ => none
   | _ => none
 
+/-- the listing of the files written for an NVAR store, digested over raw bytes (names may hold any byte) -/
+def nvListing (store : Bytes) : String :=
+  match Nvram.parseStore 0xFF store with
+  | .error _ => "err"
+  | .ok s =>
+    let es := nvEntries (Nvram.depthFuel s) 0xFF [nameBios, hexStr 0, guidStr guidNVAR, decStr 0] s.entries
+    let lines : List Bytes := es.map (fun e => joinPath e.1 ++ (s!" {e.2.length} {fnvOf e.2}").toUTF8.toList)
+    let txt : Bytes := match lines with
+      | [] => []
+      | l :: ls => ls.foldl (fun acc x => acc ++ (0x3b : UInt8) :: x) l
+    s!"ok {es.length}:{hex16 (Uefi.fnv1a txt)}"
+
+/-- the hypotheses of `extract_dirsave_eq_direct_save` / `extract_edit_dirsave_eq_direct`, evaluated -/
+def hypLine (b : Bytes) (e : Option Edit) : String :=
+  match parseWith hooks (defaultFuel b) b {} with
+  | .error er => "parse:" ++ errName er
+  | .ok (t, st) =>
+    let t' := match e with | some e => edit e t | none => t
+    let bad := (if okTree t then [] else ["okTree"]) ++ (if pwTree t then [] else ["pwTree"]) ++
+      (if TopPol st.pol t then [] else ["TopPol"]) ++ (if savedOkAll hooks t' st then [] else ["savedOkAll"])
+    if bad.isEmpty then "ok" else "no:" ++ joinWith "," bad
+
+def nvDirSave (store : Bytes) : String :=
+  match Nvram.parseStore 0xFF store with
+  | .error _ => "err"
+  | .ok s =>
+    match asmDirStore 0xFF (Nvram.depthFuel s) s with
+    | .error _ => "err"
+    | .ok r => s!"ok {fnvOf r.buf}:{r.buf.length}"
+
+def rawListing (es : List (Bytes × Bytes)) : String :=
+  let lines : List Bytes := es.map (fun e => e.1 ++ (s!" {e.2.length} {fnvOf e.2}").toUTF8.toList)
+  let txt : Bytes := match lines with
+    | [] => []
+    | l :: ls => ls.foldl (fun acc x => acc ++ (0x3b : UInt8) :: x) l
+  s!"ok {es.length}:{hex16 (Uefi.fnv1a txt)}"
+
+/-- the whole extraction of an image whose RAW files may carry NVAR stores -/
+def nvImage (b : Bytes) : String :=
+  match parseWith (nvHooks Hooks.none 0xFF) (defaultFuel b) b {} with
+  | .error er => "parse:" ++ errName er
+  | .ok (t, _) => if exFault t then "ok ex=panic" else rawListing (extractDir t)
+
 def withBytes (s : String) (k : Bytes → String) : String :=
   match parseHex s with
   | some b => k b
@@ -130,6 +196,14 @@ def handle : List String → String
     match parse hooks b with
     | .error e => errName e
     | .ok t => s!"ok {listingOf t}"
+  | ["nvlisting", st] => withBytes st nvListing
+  | ["nvimage", img] => withBytes img nvImage
+  | ["nvdirsave", st] => withBytes st nvDirSave
+  | ["hyp", img] => withBytes img fun b => hypLine b none
+  | ["hypedit", kind, old, new, img] =>
+    match mkEdit kind old new with
+    | none => "bad-op"
+    | some e => withBytes img fun b => hypLine b (some e)
   | ["pdtree", img] => withBytes img fun b =>
     match parse hooks b with
     | .error e => errName e
